@@ -178,13 +178,17 @@ def bounded_leaves(prop, work, tier, seed, open_known):
             by_fn.setdefault(f.get('fn'), []).append(f)
         for fn, fs in by_fn.items():
             ob = 'bounded:%s:%s' % (spec['harness'], fn)
-            km = None
-            for k in open_known:
-                if k.get('obligation') == ob:
-                    km = k
-            outside = [f for f in fs if km is None or f.get('class') != km.get('class')]
-            if km is not None and not outside:
-                res['known_lines'].append('KNOWN-FINDING: property=%s %s [%s]' % (prop, km.get('what', ob), ob))
+            # listed findings for this obligation, each identified by its failure class (and described by call site
+            # and witness input); a failure of any other class is a different violation and is reported
+            kms = [k for k in open_known if k.get('obligation') == ob or ob in (k.get('obligations') or [])]
+            classes = {k.get('class') for k in kms}
+            outside = [f for f in fs if f.get('class') not in classes]
+            for k in kms:
+                if any(f.get('class') == k.get('class') for f in fs):
+                    line = 'KNOWN-FINDING: property=%s %s [%s %s]' % (prop, k.get('what', ob), k.get('id', ''), ob)
+                    if line not in res['known_lines']:
+                        res['known_lines'].append(line)
+            if not outside:
                 continue
             f = outside[0]
             path = _write(work, 'bounded_' + spec['harness'] + '_' + fn, {'property': prop, 'obligation': ob, 'failing_input': f,
